@@ -586,7 +586,9 @@ func c04Workload(run *evid.Run, cfg Cfg, histories int, report func(string, any)
 	defer verifhook.Set(nil)
 	model := c04Model(l)
 	verdictVectors := map[string]bool{}
+	defer runtime.GOMAXPROCS(runtime.GOMAXPROCS(0))
 	for h := 0; h < histories; h++ {
+		runtime.GOMAXPROCS([]int{16, 16, 4, 16, 2, 8}[h%6])
 		nviol := 0
 		ops := c04History(run, r, env, l, st, h, func(w string, wit any) { nviol++; report(w, wit) })
 		if ops == nil {
